@@ -73,9 +73,8 @@ func buildResult(item *Item, offsets []Offset, score int) Result {
 			if validOffsetFound {
 				// lastDelim := strings.LastIndexByte(item.text.ToString(), '/')
 				lastDelim := -1
-				s := item.text.ToString()
-				for i := len(s) - 1; i >= 0; i-- {
-					if s[i] == '/' || s[i] == '\\' {
+				for i := numChars - 1; i >= 0; i-- {
+					if r := item.text.Get(i); r == '/' || r == '\\' {
 						lastDelim = i
 						break
 					}
